@@ -53,8 +53,20 @@ pub mod io {
     #[derive(Debug)]
     pub struct Error { k: usize }
     pub type Result<T> = core::result::Result<T, Error>;
-    #[derive(Debug, PartialEq, Eq, Clone, Copy)]
+    #[derive(Debug, Clone, Copy)]
     pub enum ErrorKind { NotFound, AlreadyExists, UnexpectedEof, Other }
+    impl PartialEq for ErrorKind {
+        fn eq(&self, o: &Self) -> (r: bool) ensures r == (*self == *o) {
+            match (*self, *o) {
+                (ErrorKind::NotFound, ErrorKind::NotFound) => true, (ErrorKind::AlreadyExists, ErrorKind::AlreadyExists) => true,
+                (ErrorKind::UnexpectedEof, ErrorKind::UnexpectedEof) => true, (ErrorKind::Other, ErrorKind::Other) => true, _ => false }
+        }
+    }
+    impl Eq for ErrorKind {}
+    impl vstd::std_specs::cmp::PartialEqSpecImpl for ErrorKind {
+        open spec fn obeys_eq_spec() -> bool { true }
+        open spec fn eq_spec(&self, o: &Self) -> bool { *self == *o }
+    }
     impl Error {
         pub uninterp spec fn spec_kind(&self) -> ErrorKind;
         #[verifier::external_body]
@@ -165,6 +177,7 @@ impl io::BufWriter<fs::File> {
             final(w).data.dom() == old(w).data.dom(),
             forall |i: u64| i != old(self).id() && old(w).data.contains_key(i) ==> #[trigger] final(w).data[i] == old(w).data[i],
             r is Ok ==> final(self).pending() == Seq::<Rec>::empty() && !final(self).dirty()
+                && final(w).data[old(self).id()].recs.len() < 0x1_0000_0000_0000
                 && final(w).data[old(self).id()] == (DataG {
                         recs: old(w).data[old(self).id()].recs + old(self).pending(),
                         size: old(self).end(), ..old(w).data[old(self).id()] }),
